@@ -94,7 +94,7 @@ type Render struct {
 	Lazy        bool // keep tags open across runs/lines that share them (multi-line tags)
 	LeaveOpen   bool // do not close the tags still open at the end of a cue
 	UpperTags   bool
-	ColorQuote  int // 0 "x", 1 'x', 2 unquoted
+	ColorQuote  int // 0 "x", 1 'x', 2 unquoted, 3 among other attributes (face, size)
 	LineSpaces  int // 0 none, 1 leading, 2 trailing, 3 both
 	NBSPEntity  bool
 }
@@ -162,6 +162,8 @@ func openFont(color string, r Render) string {
 		return "<" + tag("font", r) + " color='" + color + "'>"
 	case 2:
 		return "<" + tag("font", r) + " color=" + color + ">"
+	case 3:
+		return "<" + tag("font", r) + " face=\"Arial\" color=\"" + color + "\" size=\"12\">"
 	}
 	return "<" + tag("font", r) + " color=\"" + color + "\">"
 }
